@@ -3,7 +3,7 @@
     Run from the directory that should receive model.ml / model.mli. *)
 From Coq Require Import ExtrOcamlBasic.
 From Coq Require Import List NArith ZArith.
-From WB Require Import Num Base Props World Kernels Features Plume Bezier Apps Dat Grid Validate Mt19937 SlabSpec SlabModel SlabFeature BezierSph Quat.
+From WB Require Import Num Base Props World Kernels Features Plume Bezier Apps Dat Grid SphereGrid Validate Mt19937 SlabSpec SlabModel SlabFeature BezierSph Quat.
 
 Extraction Language OCaml.
 Extraction "model.ml"
@@ -15,6 +15,7 @@ Extraction "model.ml"
   area_to_feature plume_to_feature plume_rel_distance
   bezier_build bezier_eval closest_point_cartesian closest_point_spherical
   cells2 cells3 cells_chunk2 cells_annulus filter_mesh
+  sphere_nodes sphere_cells sphere_dups targets_ok n_kept
   doc_ok group_velocities
   mt_outputs mt_tape_list
   planar_distance slab_member fault_member
